@@ -121,6 +121,33 @@ def run(rep, facts, tier):
         oks = oks and any(bb in blocks for _h, blocks, _s in natural_loops(inf))
     rep.check(oks, 'R05.4', 'insert_frags/bits', 'sets bit (starting_num - 1 + f) for f in 0..fragments_in_submessage',
               'insert_frags does not mark exactly the fragments carried by the DATAFRAG as received', inf.where())
+    # a fragment is marked received only if it is there in full (raised F27): from the edge "payload shorter than the window it announces" no bit is set
+    rep.rule('R05.16', 'received means received whole: in insert_frags the bits of a DATAFRAG are set only on paths on which its payload is not shorter than the bytes its fragments '
+                       'stand for - min(fragments_in_submessage * frag_size, what remains of the sample) -: the edge "payload.len() < expected" leads to the return without '
+                       'received_bitmap.set')
+    ogi = Origins(inf, summaries=False)
+    Pi = Pos(inf)
+    sets = [(bb, 'term') for bb, t in inf.calls() if callee_res(t).endswith('BitVec::<B>::set') or (callee_res(t).endswith('::set') and has_field(ogi.of_operand(t['args'][0], bb, 'term'), 'received_bitmap'))]
+    short = []
+    for s_, t_, cond, lab in switch_edges(inf, fx, ogi):
+        if cond[0] != 'bin' or cond[1] not in ('Lt', 'Ge', 'Gt', 'Le') or not isinstance(lab, bool):
+            continue
+        a, b_ = cond[2], cond[3]
+        pl_a = term_has(a, lambda x: (x[0] == 'call' and x[1].endswith('::len')) or x[0] == 'len') and has_field(a, 'serialized_payload')
+        pl_b = term_has(b_, lambda x: (x[0] == 'call' and x[1].endswith('::len')) or x[0] == 'len') and has_field(b_, 'serialized_payload')
+        exp_a = has_field(a, 'fragments_in_submessage') and not pl_a
+        exp_b = has_field(b_, 'fragments_in_submessage') and not pl_b
+        if pl_a and exp_b and ((cond[1] == 'Lt' and lab is True) or (cond[1] == 'Ge' and lab is False)):
+            short.append((s_, t_, b_))
+        if exp_a and pl_b and ((cond[1] == 'Gt' and lab is True) or (cond[1] == 'Le' and lab is False)):
+            short.append((s_, t_, a))
+    # the expectation covers the last fragment too: it mentions what remains of the sample (the buffer length)
+    whole = [x for x in short if has_field(x[2], 'buffer_bytes')]
+    ok16 = bool(sets) and bool(whole) and not any(Pi.can_reach((t_, 0), st_) for s_, t_, _e in whole for st_ in sets)
+    rep.check(ok16, 'R05.16', 'insert_frags/short-fragment-not-counted', 'payload.len() < min(n*fs, remaining) => no bit set',
+              'insert_frags marks the fragments of a DATAFRAG as received although its payload is shorter than the bytes they stand for (%s): with the other fragments in place the '
+              'sample is delivered with the missing bytes left zero' % ('the size test does not lead away from the bitmap' if whole else
+                                                                          ('the size test leaves out the last fragment' if short else 'there is no such size test')), inf.where())
     nb = fx.find(FA + 'AssemblyBuffer::new')
     rep.analysed(nb)
     ogn = Origins(nb, summaries=False)
